@@ -51,7 +51,8 @@ def _has(tree, kinds):
 
 TREE = st.one_of(node(1), node(2), node(3))
 NODE1 = node(1)
-EVENTS = st.lists(streams.event(), min_size=1, max_size=8)
+ROUTE11 = st.one_of(streams.ROUTE, st.just(""))       # "" is not None: StreamToQueue documents "otherwise it is prefixed"
+EVENTS = st.lists(streams.event(routes=ROUTE11), min_size=1, max_size=8)
 
 
 @st.composite
